@@ -107,7 +107,10 @@ def r1(ctx, chk):
     P = ix.cls("dateparser.parser:_parser")
     nd = P.attrs.get("num_directives")
     try:
-        nd = ast.literal_eval(nd)
+        if isinstance(nd, ast.Call) and ast.unparse(nd.func).split(".")[-1] in ("OrderedDict", "dict") and len(nd.args) == 1 and not nd.keywords:
+            nd = dict(ast.literal_eval(nd.args[0]))      # OrderedDict([(k, v), ...]) spells the same table
+        else:
+            nd = ast.literal_eval(nd)
     except Exception:
         raise AnalysisError(rule, "_parser.num_directives is not a literal")
     want = {"month": ["%m"], "day": ["%d"], "year": ["%y", "%Y"]}
